@@ -52,6 +52,7 @@ type history struct {
 	flags   map[string]int // counters of interesting things that happened (pruning, minting, ...)
 	mon     *monitors
 	halted  bool
+	lastObs []string
 }
 
 type pendingProposal struct {
@@ -91,14 +92,16 @@ func newHistory(c *chain, r *rng, w weights) *history {
 	return h
 }
 
-func (h *history) item(op string, res int, hasRes bool, ctx sdk.Context) {
+func (h *history) item(op string, res int, hasRes bool, ctx sdk.Context) []string {
 	obs := h.obs.snapshot(ctx)
+	defer func() { h.lastObs = obs }()
 	rs := "None"
 	if hasRes {
 		rs = fmt.Sprintf("(Some %d)", res)
 	}
 	h.items = append(h.items, fmt.Sprintf("{| ti_op := %s; ti_res := %s; ti_obs := [%s] |}", op, rs, strings.Join(obs, "; ")))
 	h.nOps++
+	return obs
 }
 
 // ---- state readers used to aim operations at existing entities ----
@@ -762,12 +765,14 @@ func (h *history) doDeliver() {
 		}
 		fmt.Fprintf(os.Stderr, "FAIL %s sig=%v fee=%s: %s\n", ks, g.sigOK, g.feeKnd, lg)
 	}
-	h.item("OpDeliver "+g.coq, cls, true, h.c.ctx())
+	obs := h.item("OpDeliver "+g.coq, cls, true, h.c.ctx())
 	h.mon.afterTx(g, res, cls, false)
+	h.mon.atomicity(g, cls, obs)
 }
 
 func (h *history) doCheck() {
 	g := h.genTx(true)
+	h.mon.beforeCheck(g)
 	res, _ := h.c.check(g.spec)
 	cls := resClass(res)
 	for _, m := range g.msgs {
